@@ -16,6 +16,7 @@ import Kap.Proofs.C12Union
 import Kap.Proofs.C12UnionSortedF
 import Kap.Proofs.C12Join
 import Kap.Proofs.C12PairL
+import Kap.Proofs.C12On
 namespace Kap.Props.C12
 open Kap.C12 Kap.C12.Spec
 
@@ -261,5 +262,56 @@ theorem join_unordered_parent_depends_on_interleaving :
     ((((JNode.run cfg (a₁.map (fun a => JOp.point a.1 a.2))).2.1).filterMap (joinIntoPoint cfg)).length ≠
      (((JNode.run cfg (a₂.map (fun a => JOp.point a.1 a.2))).2.1).filterMap (joinIntoPoint cfg)).length) := by
   decide
+
+/-! ### join.on(dimensions) -/
+
+/-- **on(): totality and flush** — for EVERY arrival order of specific and general points, in any groups, with
+any times: `matchPoints` (as repaired) never makes a join group fail, and after `Finish` no group has a
+pending set and no specific point is left in the cache. -/
+theorem on_flush_no_panic (cfg : JCfg) (arrivals : List (Nat × JMsg × Bool × String)) :
+    (JOn.run cfg arrivals).2.2 = Status.ok ∧
+    (∀ p ∈ (JOn.run cfg arrivals).1.node.groups, p.2.sets = []) ∧
+    (∀ p ∈ (JOn.run cfg arrivals).1.specBuf, p.2 = []) :=
+  JOn.run_ok cfg arrivals
+
+/-- Counterexample (defect of snapshot ef0888e, repaired by commit 6a4b712): `Finish` only finished the groups;
+a specific point still cached (its general partner never came) was dropped although the outer join has to
+emit it filled. Replayed on the real code by corpus/C12/on-finish-cached-specific.ops (w1). -/
+theorem on_finishOld_drops_cached_specific :
+    let cfg : JCfg := { parents := 2, tol := 0, fill := .null, names := ["a", "b"], delim := ".", sname := "" }
+    let s : JMsg := { time := 14, name := "m0", grp := "h=x,c=2", byName := false, dims := ["h", "c"], tags := [("h", "x"), ("c", "2")], fields := [("v", "i:3")] }
+    let st := (JOn.runArrivals cfg {} [(0, s, true, "h=x")]).1
+    ((st.finishOld).2.1.filterMap (joinIntoPoint cfg)).length = 0 ∧
+    ((st.finish cfg).2.1.filterMap (joinIntoPoint cfg)).map (·.fields) = [[("a.v", "i:3"), ("b.v", "nil")]] := by
+  decide
+
+/-- Counterexample (defect of snapshot ef0888e, repaired by commit 55bd6a4): the low mark ignored a parent
+without an entry for the group when that parent came first, but not when it came last. -/
+theorem on_lowMarkOld_ignores_unreported_first_parent :
+    JOn.lowMarkOfOld 2 "g" [((1, "g"), 5)] = some 5 ∧ JOn.lowMarkOfOld 2 "g" [((0, "g"), 5)] = none ∧
+    JOn.lowMarkOf 2 "g" [((1, "g"), 5)] = none ∧ JOn.lowMarkOf 2 "g" [((0, "g"), 5)] = none := by decide
+
+/-- Full-strength statement of the `on()` pairing clause (stated, NOT proved; evaluated on every run by the spec
+oracle on the implementation's output, the same per-parent sequences replayed in three interleavings, and
+tied by correspondence): on the claimed domain (two parents, one specific and one general; at most one
+general point per general group and rounded time; per parent and general group the rounded times never go
+back) the joined points of the whole run are, up to permutation, `Spec.joinOnOutput`: every specific point
+joined with the general point of its general group and rounded time (if there is one), whatever the
+interleaving. -/
+def on_pairs_specific_with_general_stmt : Prop :=
+  ∀ (cfg : JCfg) (arr : List OnArrival), cfg.names.length = cfg.parents → onDomain cfg arr →
+    (((JOn.run cfg (arr.map (fun a => (a.src, a.msg, a.specific, a.general)))).2.1).filterMap (joinIntoPoint cfg)).Perm
+      (joinOnOutput cfg arr)
+
+/-- Non-vacuity of the statement: an instance (general parent lagging, one specific point without partner). -/
+example : let cfg : JCfg := { parents := 2, tol := 0, fill := .num "i:0", names := ["s", "g"], delim := ".", sname := "" }
+    let sm (t : Int) (c v : String) : JMsg := { time := t, name := "m0", grp := "h=x,c=" ++ c, byName := false, dims := ["h", "c"], tags := [("h", "x"), ("c", c)], fields := [("v", v)] }
+    let gm (t : Int) (v : String) : JMsg := { time := t, name := "m1", grp := "h=x", byName := false, dims := ["h"], tags := [("h", "x")], fields := [("v", v)] }
+    let sp (t : Int) (c v : String) : OnArrival := ⟨0, sm t c v, true, "h=x"⟩
+    let ge (t : Int) (v : String) : OnArrival := ⟨1, gm t v, false, "h=x"⟩
+    let arr := [sp 10 "1" "i:1", sp 10 "2" "i:2", sp 12 "1" "i:3", ge 10 "i:4", ge 13 "i:5"]
+    onDomain cfg arr ∧
+    ((((JOn.run cfg (arr.map (fun a => (a.src, a.msg, a.specific, a.general)))).2.1).filterMap (joinIntoPoint cfg)).map (·.fields)) =
+      (joinOnOutput cfg arr).map (·.fields) := by decide
 
 end Kap.Props.C12
